@@ -29,6 +29,7 @@ struct ActorHandle {
     parked: bool,
     busy: bool, // inside a call
     exiting: bool,
+    exit_reported: bool,
     dead: bool,
 }
 
@@ -109,6 +110,7 @@ impl Sched {
                 parked: false,
                 busy: true,
                 exiting: false,
+                exit_reported: false,
                 dead: false,
             },
         );
@@ -270,7 +272,8 @@ impl Sched {
     }
 
     fn after_exit_step(&mut self, t: usize) {
-        if self.actors[&t].dead {
+        if self.actors[&t].dead && !self.actors[&t].exit_reported {
+            self.actors.get_mut(&t).unwrap().exit_reported = true;
             let mut ret = Map::new();
             ret.insert("ev".into(), json!("ret"));
             ret.insert("t".into(), json!(t));
@@ -448,7 +451,7 @@ fn stats_event(foreign: &[usize]) -> Value {
     let _ = live;
     json!({
         "ev": "stats",
-        "active": st.active.iter().map(|a| a.collect_id + 1).filter(|c| !foreign.contains(c)).collect::<Vec<_>>(),
+        "active": st.active.iter().map(|a| rt::cid_out(a.collect_id)).filter(|c| !foreign.contains(c)).collect::<Vec<_>>(),
         "sets": st.active.iter().map(|a| a.buffered_sets).sum::<usize>(),
         "dang": st.active.iter().map(|a| a.danglings).sum::<usize>(),
         "deadrx": st.receivers.len(),
@@ -506,7 +509,7 @@ pub fn run(input: &str, output: &str, opts: Opts) -> std::io::Result<i32> {
         s.chan_thread.lock().unwrap().clear();
         s.parked.lock().unwrap().clear();
         s.acc.lock().unwrap().clear();
-        let foreign: Vec<usize> = verif::collector_stats().active.iter().map(|a| a.collect_id + 1).collect();
+        let foreign: Vec<usize> = verif::collector_stats().active.iter().map(|a| rt::cid_out(a.collect_id)).collect();
         let eff = |v: usize, d: usize| if v == 0 { d } else { v };
         emit(json!({"ev":"reset","run":id,"cfg":{"cancelable":opts.cancelable,"enabled":true,"ready":true,
             "queue":eff(opts.queue, 10240),"stack":eff(opts.stack, 4096),"ring":eff(opts.ring, 10240),"foreign":foreign}}));
